@@ -234,6 +234,38 @@ func parseIDNumberToFloat64(idStr string) float64 {
 	v := strings.Replace(idStr, "*^", "e", 1)
 	v = strings.Replace(v, "*10^", "e", 1)
 
-	f, _ := strconv.ParseFloat(v, 64)
+	f, _ := strconv.ParseFloat(shiftLongIntegerPart(v), 64)
 	return f
+}
+
+// shiftLongIntegerPart - strconv.ParseFloat keeps at most 800 digits of a number and, when the
+// part before the point is longer than that, loses count of the digits it has dropped:
+// 1 followed by 800 zeros and e-800 comes out as 0.1. A very long integer part is therefore
+// rewritten as a fraction with a larger exponent (123…e5 -> 0.123…e(5+n)), the form in which
+// dropped digits only matter for rounding.
+func shiftLongIntegerPart(v string) string {
+	sign, rest := "", v
+	if len(rest) > 0 && (rest[0] == '+' || rest[0] == '-') {
+		sign, rest = rest[:1], rest[1:]
+	}
+	mant, exp := rest, ""
+	if i := strings.IndexAny(rest, "eE"); i >= 0 {
+		mant, exp = rest[:i], rest[i+1:]
+	}
+	intPart, frac := mant, ""
+	if i := strings.IndexByte(mant, '.'); i >= 0 {
+		intPart, frac = mant[:i], mant[i+1:]
+	}
+	if len(intPart) <= 700 {
+		return v
+	}
+	e := 0
+	if exp != "" {
+		n, err := strconv.Atoi(exp)
+		if err != nil {
+			return v
+		}
+		e = n
+	}
+	return sign + "0." + intPart + frac + "e" + strconv.Itoa(e+len(intPart))
 }
